@@ -66,6 +66,13 @@ class Check:
                 self.obligations.append((name, "UNEXPECTED ASSUMPTIONS " + ans))
                 self.violations.append(("proof", "theorem %s depends on unexpected assumptions" % name,
                                         "theorem-or-correspondence: %s\nPrint Assumptions:\n%s" % (name, ans), False))
+        if self.tier == "thorough":
+            # the independent checker over the compiled Props modules and the whole of what they depend on
+            ok, summary, log = core.coqchk(files)
+            self.obligations.append(("coqchk -o on " + ", ".join("Props/%s.vo" % f for f in files), ("checked; " if ok else "FAILED; ") + summary))
+            if not ok:
+                self.violations.append(("proof", "coqchk does not accept the compiled development (%s)" % summary,
+                                        "theorem-or-correspondence: coqchk -o -silent -Q . PNA %s\n%s" % (" ".join("PNA.Props." + f for f in files), log[-3000:]), False))
         return True
 
     # ----------------------------------------------------------- correspondence
@@ -280,7 +287,7 @@ class Check:
             print("VIOLATION property=%s replay=%s%s" % (self.prop, path, tail))
             print("  (%s) %s" % (kind, detail))
             rc = 1
-        discharged = sum(1 for _, s in self.obligations if s.startswith("proved"))
+        discharged = sum(1 for _, s in self.obligations if s.startswith(("proved", "checked")))
         cov = dict(self.cov)
         cov.update({"obligations": max(1, len(self.obligations)), "discharged": discharged,
                     "checker_cmd": self.checker_cmd,
